@@ -89,6 +89,30 @@ def hier_designs(tier, seed):
     specs.append((2, False, False, {"dangling": "u1:u1:n", "dangling-port": True}))
     specs.append((1, False, False, {"dangling": "u2:n"}))
     specs.append((1, False, False, {"unnamed": True}))
+    # a sub-module WITHOUT ports (its port map is empty), whose internal net names recur in the parent and in its twin
+    def portless(depth):
+        def b():
+            Cell = h.Module(name="Portless")
+            Cell.n, Cell.k = h.Signal(), h.Signal()
+            Cell.r1 = h.R(r=1)(p=Cell.n, n=Cell.k)
+            Cell.c1 = h.C(c=1)(p=Cell.k, n=Cell.n)
+            Mid = h.Module(name="PortlessMid")
+            Mid.n, Mid.k = h.Signal(), h.Signal()
+            Mid.a = Cell()
+            Mid.b = Cell()
+            Mid.r = h.R(r=2)(p=Mid.n, n=Mid.k)
+            if depth == 1:
+                return Mid
+            Top = h.Module(name="PortlessTop")
+            Top.n = h.Signal()
+            Top.q = h.Port()
+            Top.m1 = Mid()
+            Top.m2 = Mid()
+            Top.r = h.R(r=3)(p=Top.n, n=Top.q)
+            return Top
+        return b
+    for d in (1, 2):
+        yield (f"flat/portless/d{d}", portless(d))
     # histories: flatness asked of a module (and of its parts) while it is still being built, and flattening twice
     def probed(depth):
         from hdl21.flatten import is_flat, flatten as _fl
